@@ -36,6 +36,28 @@ def classes(rnd, n_random, full=False):
                     add(t, v & ((1 << w) - 1), 'leb-boundary')
         for _ in range(n_random):
             add(t, rnd.getrandbits(w), 'random')
+        # decimal structure (the translator spells integers in base 10): a leading digit, a run of zeros of every length at every
+        # position, then a short tail - and the same negated
+        zr = []
+        maxd = 9 if w == 32 else 18
+        for a in range(1, maxd + 1):
+            for bdig in range(0, a):
+                hi = rnd.randint(1, 9)
+                lo = rnd.randint(10 ** (bdig - 1), 10 ** bdig - 1) if bdig > 0 else 0
+                v = hi * 10 ** a + lo
+                if v < (1 << (w - 1)):
+                    zr.append(v)
+        for mult in (1, 2, 3, 4, 9):
+            for e in (9, 18):
+                for tail in (0, 5, 987654321):
+                    v = mult * 10 ** e + tail
+                    if v < (1 << (w - 1)):
+                        zr.append(v)
+        if not full and len(zr) > 120:
+            zr = rnd.sample(zr, 120)
+        for v in zr:
+            add(t, v, 'decimal-zero-run')
+            add(t, (-v) & ((1 << w) - 1), 'decimal-zero-run')
     # f32
     for sign in (0, 0x80000000):
         for payload, cls in ((1, 'nan-payload1'), (0x400000, 'nan-quiet-only'), (0x400001, 'nan-quiet-1'),
@@ -189,9 +211,15 @@ def run_module(chk, w2c2, k, consts, builds, seg_offsets):
         chk.inconclusive('V8 rejected generated constants module: ' + msg)
         return
     files = {'module.wasm': b, 'script.txt': script}
-    for tag, cc, cflags in builds:
-        bd = os.path.join(d, tag)
-        st, out, r = e2e.build_and_run(w2c2, b, plan, script, bd, cc=cc, cflags=cflags)
+    kbuilds = list(builds)
+    cenv = env.comma_locale_env() if k % 3 == 0 else None
+    if cenv:
+        # the same translation with the translator started under a locale whose decimal point is ',': the spelling of constants
+        # must not depend on the environment of the translator process
+        kbuilds.append(('gcc-O0+translator-in-comma-locale', 'gcc', ['-O0']))
+    for tag, cc, cflags in kbuilds:
+        bd = os.path.join(d, tag.replace('+', '_'))
+        st, out, r = e2e.build_and_run(w2c2, b, plan, script, bd, cc=cc, cflags=cflags, translate_env=cenv if 'comma-locale' in tag else None)
         if st != 'ok':
             chk.violation('C07:%s:%s' % (st, tag), 'constants module %d failed at stage %s (%s): %s' % (k, st, tag, str(out)[:1500]), files)
             continue
@@ -322,6 +350,7 @@ def main(chk):
     literal_sweep(chk, w2c2, quick, builds)
     chk.observe('constants_total', len(consts), 'set')
     chk.observe('builds', [b[0] for b in builds], 'set')
+    chk.observe('comma_decimal_locale_available', env.comma_locale_env() is not None, 'set')
     chk.assume('gcc 12 / clang 14 parse decimal and hexadecimal literals correctly (they are the compilers the property quantifies over here)')
 
 
